@@ -9,102 +9,102 @@ CHECKS = {
     "C06": dict(
         level="exploration", design="5/C06",
         technique="runtime postcondition monitor on operator results against an exact-rational reference + metamorphic law monitors; exhaustive 18^n cell lattice for n<=3",
-        text="Every FuzzyOr/And/Not/Union/WeightedUnion/SelectedUnion/XOr call made by the workload is checked cell by cell against an independent exact-rational model, and the algebraic laws are checked on the same inputs. For <=3 inputs the complete lattice of 17 fuzzy values + missing is enumerated (as array cells, in rank 1-3 layouts and all input orders); 4-5 inputs are sampled. Held on what was executed, not a proof.",
+        text="Every FuzzyOr/And/Not/Union/WeightedUnion/SelectedUnion/XOr call made by the workload is checked cell by cell against an independent exact-rational model, and the algebraic laws are checked on the same inputs. For <=3 inputs the complete lattice of 17 fuzzy values + missing is enumerated (as array cells, in rank 1-3 layouts and all input orders); 4-5 inputs are sampled. Held on what was executed, not a proof. Repeated fields ([A, A, B]) and mixed element types (crisp integer and float32 inputs in any order) are included.",
         note="Trusted: numpy.ma primitives, the reference models in src/mpv/ref.py, the stand-in producer commands (built as the repository's tests build them). Values are multiples of 1/8 in [-1,1]; other floats are covered only through C04/C02 workloads."),
     "C03": dict(
         level="exploration", design="5/C03",
         technique="runtime mask postconditions on every data-command result + payload-variation metamorphic monitor (three payloads under the mask; CSV read with two missing markers)",
-        text="Each generated call of every built-in data command is monitored for: result mask contains the union of the input masks; result mask contains nothing else unless the reference model says the operation is undefined there; and three runs that differ only in the numbers hidden under masked cells give bit-identical visible results. Exploration over random shapes, dtypes, mask placements and parameter sets.",
+        text="Each generated call of every built-in data command is monitored for: result mask contains the union of the input masks; result mask contains nothing else unless the reference model says the operation is undefined there; and three runs that differ only in the numbers hidden under masked cells give bit-identical visible results. Exploration over random shapes, dtypes, mask placements and parameter sets. A follow-up command on every input afterwards must be missing exactly where that input was specified missing.",
         note="Trusted: numpy.ma, reference models (for the 'undefined cell' set), stand-in producers. Bounded: <=5 inputs, <=40 cells, lattice values; NaN/inf never generated."),
     "C04": dict(
         level="exploration", design="5/C04",
         technique="runtime range postcondition on all 14 fuzzy-producing commands under hostile parameters/data, icontract postcondition on insure_fuzzy, quiescent re-check after a further consumer ran",
-        text="Every result of a fuzzy-producing command observed in the workload must lie in [-1,1] at its non-missing cells (NaN counts as outside), immediately and again after another command consumed it. Parameters are deliberately hostile (values up to 1e6, reversed / nearly equal thresholds, negative or huge weights), data include float32/int16/int32 and wild finite floats.",
+        text="Every result of a fuzzy-producing command observed in the workload must lie in [-1,1] at its non-missing cells (NaN counts as outside), immediately and again after another command consumed it. Parameters are deliberately hostile (values up to 1e6, reversed / nearly equal thresholds, negative or huge weights), data include float32/int16/int32 and wild finite floats. The same range monitor rides on whole CSV and NetCDF model runs (at every execute exit of a fuzzy command and again at the end of the run).",
         note="Trusted: numpy. Out of scope: non-finite inputs, control points closer than 1e-9 relative (slope overflow), fuzzy operator inputs outside [-1,1]."),
     "C05": dict(
         level="exploration", design="5/C05",
         technique="runtime shape postcondition + metamorphic monitors (common cell permutation, reshape across ranks 1-3) on every data command",
-        text="For every generated call the result must have exactly the input shape, and re-running the same command on commonly permuted or reshaped cells must give the identically permuted / reshaped result (bit-exact on the dyadic lattice; 1e-9 for the z-score commands whose float summation order changes).",
+        text="For every generated call the result must have exactly the input shape, and re-running the same command on commonly permuted or reshaped cells must give the identically permuted / reshaped result (bit-exact on the dyadic lattice; 1e-9 for the z-score commands whose float summation order changes). Further relations: Fortran-ordered / transposed-view inputs give the same cells; the same NetCDF table stored as a vector and as a grid gives bit-identical results for every command of a whole model.",
         note="Trusted: numpy. Bounded: rank 1-3, <=48 cells, <=5 inputs."),
     "C07": dict(
         level="exploration", design="5/C07",
         technique="runtime reference postcondition (exact rationals) + input-order metamorphic monitor + single-fault error-class monitor on the ten arithmetic commands",
-        text="Each arithmetic call is compared cell by cell with exact rational arithmetic; every int64/float64 assignment for up to 4 inputs is enumerated and input orders are permuted, demanding the same outcome class and values; zero divisors must yield missing cells; shape / weight-count / empty-list faults must raise MixedArrayShapes / MismatchedWeights / EmptyInputs.",
+        text="Each arithmetic call is compared cell by cell with exact rational arithmetic; every int64/float64 assignment for up to 4 inputs is enumerated and input orders are permuted, demanding the same outcome class and values; zero divisors must yield missing cells; shape / weight-count / empty-list faults must raise MixedArrayShapes / MismatchedWeights / EmptyInputs. Repeated fields, weights summing to exactly zero (all cells missing, no error), floats off the dyadic lattice and small integer types (overflow excluded) are included.",
         note="Trusted: numpy, reference models. int64 overflow never generated; result dtype not judged."),
     "C08": dict(
         level="exploration", design="5/C08",
         technique="runtime reference postcondition on the Cvt*/Normalize* commands + variant-pair, inverse and monotonicity monitors",
-        text="Each conversion / normalisation result is compared with an independent model of its documented mapping (exact rationals where the mapping is rational; float with 1e-9 tolerance for z-scores), each CvtToFuzzy variant is compared with its clamped Normalize counterpart, CvtFromFuzzy is checked to invert CvtToFuzzy between the thresholds, and monotone mappings must preserve cell order.",
+        text="Each conversion / normalisation result is compared with an independent model of its documented mapping (exact rationals where the mapping is rational; float with 1e-9 tolerance for z-scores), each CvtToFuzzy variant is compared with its clamped Normalize counterpart, CvtFromFuzzy is checked to invert CvtToFuzzy between the thresholds, and monotone mappings must preserve cell order. CvtToFuzzyZScore is also run with its documented default thresholds; a quarter of the cases use floats off the dyadic lattice.",
         note="Trusted: reference models (prototype-validated against the pinned implementation on ~5k cases), numpy. Don't-care: z-score default thresholds (docs and code disagree), StartVal>=EndVal, equal thresholds, duplicate raw values, constant arrays. Only the 14 commands that exist are covered (the property text says 17)."),
     "C09": dict(
         level="exploration", design="5/C09",
         technique="invariant at a quiescent hook: digest of every finished result recomputed after every later execute() in random consumer sequences over all built-in commands (both library sets)",
-        text="After every consumer execution the shape, dtype, mask and unmasked value bits of every previously finished result (stand-in producers and real command results) are re-digested and compared with the digest taken when it was produced. Consumers include single-input forms of n-ary operators, PrintVars, and the CSV and NetCDF writers.",
+        text="After every consumer execution the shape, dtype, mask and unmasked value bits of every previously finished result (stand-in producers and real command results) are re-digested and compared with the digest taken when it was produced. Consumers include single-input forms of n-ary operators, PrintVars, and the CSV and NetCDF writers. The same invariant rides on whole CSV and NetCDF model runs (after every execute exit and at the end of the run).",
         note="Trusted: numpy, sha1. Values under the mask are excluded. Sequences of <=10 consumers over <=6 base arrays."),
     "C10": dict(
         level="exploration", design="5/C10",
         technique="runtime comparison of Parser().parse output with the generating AST over random renderings (layout metamorphic), plus single-edit corruption monitor demanding SyntaxError; failures classified by isolated leaf value class",
-        text="Random abstract programs are rendered in many concrete layouts (spacing, tabs, line breaks, comment lines, trailing comments, trailing commas, quote style, LF/CRLF) and the ProgramNode returned by the real parser is compared type-exactly with the AST (floats bit-exact, tuples as maps). Unambiguously malformed single-edit corruptions must raise SyntaxError. One known finding: unquoted strings ending in a numeric token are rejected.",
+        text="Random abstract programs are rendered in many concrete layouts (spacing, tabs, line breaks, comment lines, trailing comments, trailing commas, quote style, LF/CRLF) and the ProgramNode returned by the real parser is compared type-exactly with the AST (floats bit-exact, tuples as maps). Unambiguously malformed single-edit corruptions must raise SyntaxError. One known finding: unquoted strings ending in a numeric token are rejected. Values include characters that only str.splitlines() treats as line breaks, the words True/False inside unquoted text, runs of blanks and tabs between words, and unquoted tuple keys ending in non-identifier characters; corruptions include a key/value pair inside a plain list.",
         note="Trusted: the harness renderer and its statement of 'well-formed' (documented syntax + what tests/test_parser.py fixes). Don't-care: duplicate tuple keys, comments/newlines inside unquoted strings, bare True/False, backslash escapes other than \\\\ \\\" \\' \\n \\t."),
     "C11": dict(
         level="exploration", design="5/C11",
         technique="runtime node-by-node line monitor against the renderer's line map under LF/CRLF/CR, multi-line strings and Parser-reuse histories; fault injection at known lines with error.lineno and CLI '-->' marker monitors",
-        text="Every CommandNode/ArgumentNode/ExpressionNode/list element line is compared with the line recorded by the renderer, including after histories of earlier parses on the same Parser object; single faults are injected at known positions of valid EEMS models and the lineno carried by the resulting error (and the line the CLI marks) must be the offending command's or argument's line.",
+        text="Every CommandNode/ArgumentNode/ExpressionNode/list element line is compared with the line recorded by the renderer, including after histories of earlier parses on the same Parser object; single faults are injected at known positions of valid EEMS models and the lineno carried by the resulting error (and the line the CLI marks) must be the offending command's or argument's line. Histories include the same text shifted by leading lines; faults are also injected into multi-line EEMS 2.0 commands; one in six CLI cases carries FF/VT/FS/GS/RS/NEL/LS/PS characters before the marked line.",
         note="The head 'Result = Command(' is kept on one line. For list arguments the argument-name line, the list's first line and the offending element's line are all accepted. Errors of an unexpected class are left to C12/C13."),
     "C12": dict(
         level="fault_enumeration", design="5/C12",
         technique="single-fault enumeration over the command x parameter x wrong-kind matrix and all producer/consumer pairings, with an outcome monitor (error class + attributes) and a LOAD->PREPASS->EXEC phase monitor over execute()/file-system events",
-        text="For every built-in command of the CSV set a valid base model and every fault site on it are enumerated (missing/undeclared parameters, every wrong kind per declared type, unknown / non-data / wrong-fuzziness results, bad and relative paths, unknown command, duplicate result), the same faults are placed at random positions of random models with sinks, and producer/consumer pairings are predicted from the declarations. The rejection must be the specific error naming the offender, and the event log must show no execute() entry, no file-system write (audit hook + directory snapshot) and no finished command before it. Unfaulted models must not be rejected by an acceptance error.",
+        text="For every built-in command of the CSV set a valid base model and every fault site on it are enumerated (missing/undeclared parameters, every wrong kind per declared type, unknown / non-data / wrong-fuzziness results, bad and relative paths, unknown command, duplicate result), the same faults are placed at random positions of random models with sinks, and producer/consumer pairings are predicted from the declarations. The rejection must be the specific error naming the offender, and the event log must show no execute() entry, no file-system write (audit hook + directory snapshot) and no finished command before it. Unfaulted models must not be rejected by an acceptance error. Also: NetCDF models, falsy wrong-kind values, optional parameters the base model does not use (Metadata on every command), case variants of parameter names, and commands of libraries that were not selected.",
         note="Acceptance rule restated in the harness from inputs/required/output/is_fuzzy declarations. String/Path parameters given lists or tuples are don't-care. NetCDF library set is covered for pairings only through shared basic/fuzzy commands."),
     "C13": dict(
         level="fault_enumeration", design="5/C13",
         technique="API-boundary exception-type monitor over enumerated kind confusions, character-level text corruptions, CSV content faults, injected open() failures and run-time argument faults; CLI exit-status/stderr monitor for every MPilotError",
-        text="Whatever escapes Parser().parse, Program.from_source or Program.run is recorded; anything other than SyntaxError or an MPilotError is a violation (reported with the innermost mpilot frame). For MPilotErrors str(exc) must be computable and the command-line tool run on the same file must exit non-zero with the Problem/Solution text on stderr.",
+        text="Whatever escapes Parser().parse, Program.from_source or Program.run is recorded; anything other than SyntaxError or an MPilotError is a violation (reported with the innermost mpilot frame). For MPilotErrors str(exc) must be computable and the command-line tool run on the same file must exit non-zero with the Problem/Solution text on stderr. Also: NetCDF content faults, NUL characters in paths, 1100- and 3000-command chains and rings, and a sample of runs through the real console entry point in its own process.",
         note="Out of scope: non-UTF-8 command files, KeyboardInterrupt/MemoryError. The CLI's handling of SyntaxError is not specified by the property and not judged."),
     "C01": dict(
         level="exploration", design="5/C01",
         technique="event recorder at the execute()/Command.result boundary with an online life-cycle automaton and offline exactly-once / finished-before-use / fed-value checkers over the log; injective probe-library reference evaluation; post-run histories",
-        text="Every generated program (all 4-command DAG shapes x textual orders x reference styles, random DAGs up to 14 probe commands with repeated, list and nested-list references, string parameters colliding with result names, None-returning sinks; random EEMS models) is run with per-instance execute wrappers and a recording Command.result. The log must show exactly one enter/exit per command, reads only of finished results carrying the value execute returned, final values equal to the graph evaluation, and zero executions during a random history of further run()/result/metadata/to_string/validate_params calls.",
+        text="Every generated program (all 4-command DAG shapes x textual orders x reference styles, random DAGs up to 14 probe commands with repeated, list and nested-list references, string parameters colliding with result names, None-returning sinks; random EEMS models) is run with per-instance execute wrappers and a recording Command.result. The log must show exactly one enter/exit per command, reads only of finished results carrying the value execute returned, final values equal to the graph evaluation, and zero executions during a random history of further run()/result/metadata/to_string/validate_params calls. Also: typed consumers of non-array results, NetCDF models, several programs per process with shared result names, and a recording contract on the flattening of nested reference lists.",
         note="Trusted: the harness probe library and recorder. Many programs share one process (registry and parameter objects are process-global), so cross-program leakage is observable."),
     "C14": dict(
         level="fault_enumeration", design="5/C14",
         technique="enumeration of cyclic labelled digraphs (all on <=4 commands in the thorough tier, sampled in quick; random on 5-8) with an outcome recorder around Program.run, cause-chain inspection and a Command.run depth counter",
-        text="Each cyclic program (self-loops, 2-cycles, longer cycles, tails, separate acyclic parts; references direct, in lists, in nested lists; probe and real EEMS commands; shuffled order) must make run() raise RecursiveModelStructure: a normal return, any other error, a RecursionError in the cause chain or a run depth beyond the command count is a violation.",
+        text="Each cyclic program (self-loops, 2-cycles, longer cycles, tails, separate acyclic parts; references direct, in lists, in nested lists; probe and real EEMS commands; shuffled order) must make run() raise RecursiveModelStructure: a normal return, any other error, a RecursionError in the cause chain or a run depth beyond the command count is a violation. Commands referencing the same result twice, one-argument-per-line layout and forward-reference-free order are included.",
         note="Whether commands outside the cycle ran before the rejection, and the error's line, are not judged."),
     "C20": dict(
         level="exploration", design="5/C20",
         technique="icontract postconditions and snapshot-based purity conditions attached to every Parameter.clean from the harness (recording, evaluation-counted), exception-class monitor, repeat/idempotence monitors; matrix workload plus live contracts during whole-model runs",
-        text="Every parameter class and configuration is driven with ~130 raw values of every kind the parser or API delivers, with and without a working directory: the cleaned value must have the documented type, only ProgramError may be raised, a second clean and a clean of the cleaned value must give equal results, and deep snapshots of the raw value and of the program must be unchanged. The same contracts stay attached while random models are loaded and run (through from_source and through add_command), where the recorder pairs the pipeline's two cleanings of each argument.",
+        text="Every parameter class and configuration is driven with ~130 raw values of every kind the parser or API delivers, with and without a working directory: the cleaned value must have the documented type, only ProgramError may be raised, a second clean and a clean of the cleaned value must give equal results, and deep snapshots of the raw value and of the program must be unchanged. The same contracts stay attached while random models are loaded and run (through from_source and through add_command), where the recorder pairs the pipeline's two cleanings of each argument. The same parameter object is re-used by a second program with another working directory; finished producers of convertible non-array results are offered to typed result parameters, and the program snapshot includes finished results.",
         note="Trusted: icontract, the harness's statement of documented types. Don't-care list in the evidence assumptions."),
     "C02": dict(
         level="exploration", design="5/C02",
         technique="postcondition evaluated at every execute() exit inside running models (independent reference model applied to the inputs the command actually received; reads compared with the written table) + metamorphic monitors over command permutations, metadata and extra-consumer variants",
-        text="Random well-typed EEMS models over all built-in data commands are loaded from source and run with a per-node postcondition; every model is re-run reversed, under random permutations, with Metadata attached and with extra Copy/PrintVars consumers, and every shared result must be bit-identical. A coverage ledger makes the run inconclusive if any built-in data command never had its postcondition evaluated.",
+        text="Random well-typed EEMS models over all built-in data commands are loaded from source and run with a per-node postcondition; every model is re-run reversed, under random permutations, with Metadata attached and with extra Copy/PrintVars consumers, and every shared result must be bit-identical. A coverage ledger makes the run inconclusive if any built-in data command never had its postcondition evaluated. A quarter of the models read from and write to NetCDF datasets (grids of rank 1-3); result names come from a small pool shared across programs (including names differing only in case); every model is re-run over a changed table written to the same path.",
         note="Trusted: reference models, recorder. Nodes whose reference is undefined (constant arrays, zero spread, equal thresholds) are don't-care; their consumers are still judged on what they received."),
     "C15": dict(
         level="exploration", design="5/C15",
         technique="round-trip monitor: structural comparison (cleaned values, references by name, floats bit-exact, metadata) of P and from_source(P.to_string()), result comparison after running both, second-generation structural fixpoint",
-        text="Programs over a harness command with one parameter of every kind (strings with quotes, backslashes, delimiters, '#', non-ASCII, edge blanks, control characters; huge ints, exponent-form floats, -0.0; booleans; lists, nested lists; references by name and by Command object; tuples; metadata), built from source and through add_command, and random EEMS models, must survive serialise -> load with the same structure and the same results.",
+        text="Programs over a harness command with one parameter of every kind (strings with quotes, backslashes, delimiters, '#', non-ASCII, edge blanks, control characters; huge ints, exponent-form floats, -0.0; booleans; lists, nested lists; references by name and by Command object; tuples; metadata), built from source and through add_command, and random EEMS models, must survive serialise -> load with the same structure and the same results. Half of the programs contain forward references; to_file (by path and by file object) must write exactly to_string().",
         note="Not judged: text layout, key order of tuples/metadata, type objects and NaN/inf as values."),
     "C16": dict(
         level="exploration", design="5/C16",
         technique="existence monitor over the 25 EEMS 2.0 names + differential monitor: 2.0 text vs the harness's own translation, both loaded and run (outcome class, program structure, results)",
-        text="Every 2.0 name must resolve to an existing command in the CSV or NetCDF set (all 25 x 8 naming/argument forms), and random EEMS models written in 2.0 syntax (bare and 'Result =' forms, NewFieldName / InFieldName naming, OutFileName present or not, mixed with MPilot-style commands, all layouts) must load to the same program and compute the same results as the harness's translation. Two known findings (SCORERANGEBENEFIT / SCORERANGECOST).",
+        text="Every 2.0 name must resolve to an existing command in the CSV or NetCDF set (all 25 x 8 naming/argument forms), and random EEMS models written in 2.0 syntax (bare and 'Result =' forms, NewFieldName / InFieldName naming, OutFileName present or not, mixed with MPilot-style commands, all layouts) must load to the same program and compute the same results as the harness's translation. Two known findings (SCORERANGEBENEFIT / SCORERANGECOST). Argument order in the 2.0 text is shuffled, and a third of the loads follow an earlier 2.0 load with a restricted library set.",
         note="The harness's name table restates the mapping by meaning. Don't-care: 2.0 commands without any usable name, OutFileName on MPilot-style commands inside a 2.0 file."),
     "C17": dict(
         level="exploration", design="5/C17",
         technique="reference comparison of EEMSRead results with harness-written tables (bit-exact), other-column independence monitor, error-line monitor, written-file monitor parsed with the csv module, read-after-write monitor",
-        text="Tables with hostile doubles (subnormals, extremes, -0.0, values one ulp from the missing value), int64, headers needing CSV quoting, blank lines, LF/CRLF and every missing-value situation are written by the harness and read through the real command; written files are parsed independently; written-then-read arrays must be bit-identical.",
+        text="Tables with hostile doubles (subnormals, extremes, -0.0, values one ulp from the missing value), int64, headers needing CSV quoting, blank lines, LF/CRLF and every missing-value situation are written by the harness and read through the real command; written files are parsed independently; written-then-read arrays must be bit-identical. Files are rewritten under the same path and re-read by a new program; headers include quoted line breaks and form feeds.",
         note="Don't-care: text of missing cells in written files, fractional cells read as Integer, NaN/inf, ragged rows."),
     "C18": dict(
         level="exploration", design="5/C18",
         technique="reference comparison of NetCDF EEMSRead results with variables written directly through netCDF4 for every DataType x MissingValue combination; write-then-read monitor (shape, kind, values, union mask) and template-copy monitor",
-        text="Variables of f8/f4/i8/i4/i2 with and without _FillValue are read under every DataType x MissingValue combination and compared with what the file holds (element kind, values, mask = fill cells + cells equal to the missing value, positive / fuzzy checks); 1-4 results with any mix of dtypes and mask kinds are written together and read back (mask must be the union), and the template's dimension variables, coordinate values and attributes must be copied unchanged.",
+        text="Variables of f8/f4/i8/i4/i2 with and without _FillValue are read under every DataType x MissingValue combination and compared with what the file holds (element kind, values, mask = fill cells + cells equal to the missing value, positive / fuzzy checks); 1-4 results with any mix of dtypes and mask kinds are written together and read back (mask must be the union), and the template's dimension variables, coordinate values and attributes must be copied unchanged. Sequences: each result is written again alone after a joint write; the same template file is used with a second template variable; valid cells within 5e-9..0.05 of the missing value stay valid.",
         note="Trusted: netCDF4. Not judged: ties when rounding to integer, the width of the fuzzy tolerance band, compression settings."),
     "C19": dict(
         level="exploration", design="5/C19",
         technique="differential history monitor: Program.command_library (name -> module, probe behaviour) after a random in-process history vs the same probe in a clean process; one fresh subprocess per history",
-        text="For probes over prefix-related user libraries, packages and the built-in sets, random histories of earlier Program constructions, imports, Command subclass definitions (in __main__, named like built-ins, under prefix-related module names) and model runs must not change what the probe sees; libraries sharing a command name must fail at construction and disjoint ones must not.",
+        text="For probes over prefix-related user libraries, packages and the built-in sets, random histories of earlier Program constructions, imports, Command subclass definitions (in __main__, named like built-ins, under prefix-related module names) and model runs must not change what the probe sees; libraries sharing a command name must fail at construction and disjoint ones must not. Targeted histories: the probe tuple itself constructed before, dotted library names against modules differing at the dot, packages with internal duplicates.",
         note="Class object identity is not compared. ~0.35 s per process bounds the number of histories."),
 }
 
